@@ -167,11 +167,15 @@ pub fn shape(name: &str, n: usize) -> Option<String> {
         "escapes" => rep("\\u{10FFFF}", n),
         "lazy_opt_groups" => rep("(a)??", n),
         "lookbehind_groups" => format!("(?<={})", rep("(a)", n)),
+        "sibling_nested_classes" => rep("[[a]]", n),
+        "nested_class_list" => format!("[{}]", rep("[a]", n)),
+        "sibling_groups_in_group" => format!("({})", rep("(?:a)", n)),
         _ => return None,
     })
 }
 
-pub const SHAPES: [&str; 38] = [
+pub const SHAPES: [&str; 41] = [
+    "sibling_nested_classes", "nested_class_list", "sibling_groups_in_group",
     "alt", "alt_in_group", "alt_groups", "nest_capture", "nest_noncap", "nest_lookahead", "nest_lookbehind", "nest_modifier", "nest_class", "nest_quant", "unbalanced_open", "unbalanced_close", "unbalanced_bracket", "stars", "groups", "named_groups", "dup_named_backref",
     "backrefs", "count_exact", "count_range", "count_group", "count_digits", "count_digits_range", "count_nested", "count_nested_big", "rgi_emoji", "prop_any", "literal", "literal_lookbehind", "literal_icase", "class_members", "class_ranges", "class_qstrings", "class_subtract",
     "escapes", "lazy_opt_groups", "lookbehind_groups", "alt",
@@ -264,6 +268,39 @@ pub fn c07(run: &mut Run) -> Stats {
     let mut st = sweep_strings(run, &toks, n_tok, "token strings", &hang);
     let raw: Vec<u32> = vec![0, 0x28, 0x5C, 0xD800, 0xDFFF, 0x10FFFF, 'a' as u32, '{' as u32, '[' as u32, 'u' as u32, '}' as u32];
     st = st.merge(sweep_strings(run, &raw, if thorough { 6 } else { 5 }, "raw code points", &hang));
+    // (c) every prefix and every suffix of every seed pattern of C08 (truncated constructs)
+    {
+        let seeds = crate::c08::seed_patterns(thorough);
+        let known = run.known.clone();
+        let s3 = seeds
+            .par_iter()
+            .fold(Stats::default, |mut st, p| {
+                let mut cuts: Vec<Vec<u32>> = Vec::new();
+                for k in 0..p.len() {
+                    cuts.push(p[..k].to_vec());
+                    cuts.push(p[k..].to_vec());
+                }
+                for pat in cuts {
+                    for fs in FLAGSETS {
+                        st.add("evaluations", 1);
+                        st.add("validated", 1);
+                        st.add("truncations", 1);
+                        match subject::compile(&pat, Flags::parse(fs), false) {
+                            CompileOutcome::Ok(_) => st.add("nontrivial", 1),
+                            CompileOutcome::Err(_) => {}
+                            CompileOutcome::Panic(m) => {
+                                let where_ = m.rsplit(" at ").next().unwrap_or("").to_string();
+                                let case = J::obj().set("kind", J::s("compile")).set("pattern", J::s(&print::show(&pat))).set("pattern_cps", J::cps(&pat)).set("flags", J::s(fs)).set("what", J::s("panic during compilation")).set("got", J::s(&m));
+                                st.violation(&known, "C07", &format!("panic during compilation at {} [truncated seed pattern]", where_), pat.len(), case);
+                            }
+                        }
+                    }
+                }
+                st
+            })
+            .reduce(Stats::default, Stats::merge);
+        st = st.merge(s3);
+    }
     // size-parameterised shapes, each in a child process
     let sizes: Vec<usize> = if thorough { vec![1, 2, 10, 100, 255, 256, 257, 1000, 10_000, 65_535, 65_536, 100_000, 1_000_000] } else { vec![1, 2, 10, 100, 255, 256, 257, 1000, 10_000, 65_535, 65_536] };
     let mut jobs: Vec<(&str, usize, &str, bool)> = Vec::new();
@@ -332,7 +369,7 @@ pub fn c07(run: &mut Run) -> Stats {
         st.sample(|| t);
     }
     run.rule = format!(
-        "(a) every string over the {}-token alphabet {:?} of length <= {} and every raw code point string over {{0, (, \\, U+D800, U+DFFF, U+10FFFF, a, {{, [, u, }}}} of length <= {} x flag sets {:?}: from_unicode must return Ok or Err (catch_unwind; a watchdog reports any compile > 10 s); (b) {} size-parameterised shapes x sizes {:?} x {{\"\",u,v}} x {{main thread, spawned 2 MiB thread}}, each in a child process (8 MiB stack, 6 GiB address space, {} s wall): exit status 0 with Ok/Err; non-trivial = the input compiles",
+        "(a) every string over the {}-token alphabet {:?} of length <= {} and every raw code point string over {{0, (, \\, U+D800, U+DFFF, U+10FFFF, a, {{, [, u, }}}} of length <= {} x flag sets {:?}: from_unicode must return Ok or Err (catch_unwind; a watchdog reports any compile > 10 s); (c) every prefix and suffix of every C08 seed pattern x the same flag sets; (b) {} size-parameterised shapes x sizes {:?} x {{\"\",u,v}} x {{main thread, spawned 2 MiB thread}}, each in a child process (8 MiB stack, 6 GiB address space, {} s wall): exit status 0 with Ok/Err; non-trivial = the input compiles",
         toks.len(),
         TOKENS,
         n_tok,
